@@ -260,9 +260,39 @@ impl<'r> DocGen<'r> {
                     let col = prefix.chars().count();
                     let mid = format!("{prefix}{nm}) for ");
                     let bcol = mid.chars().count();
-                    self.lines.push(format!("{mid}{nm} in [{t}]]"));
-                    self.uses.push(UseSite { id, name: nm.clone(), line: self.lines.len() - 1, col_chars: col });
-                    self.bindings.push(Binding { name: nm.clone(), scope: cscope, line: self.lines.len() - 1, col_chars: bcol, tag: t });
+                    self.uses.push(UseSite { id, name: nm.clone(), line: self.lines.len(), col_chars: col });
+                    self.bindings.push(Binding { name: nm.clone(), scope: cscope, line: self.lines.len(), col_chars: bcol, tag: t });
+                    let mut line = format!("{mid}{nm} in ");
+                    // The iterable of the FIRST for clause is evaluated in the enclosing scope: a use of
+                    // the same name there reads the enclosing binding, not the comprehension's.
+                    if visible.contains(&nm) && self.rng.chance(1, 2) {
+                        let id2 = self.uses.len();
+                        let p2 = format!("{line}[{t}, mark(\"u{id2}\", {}, ", self.decor());
+                        self.uses.push(UseSite { id: id2, name: nm.clone(), line: self.lines.len(), col_chars: p2.chars().count() });
+                        line = format!("{p2}{nm})][:1]");
+                    } else {
+                        line = format!("{line}[{t}]");
+                    }
+                    // A second for clause: its iterable and any `if` are inside the comprehension scope.
+                    if self.rng.chance(1, 3) {
+                        let nm2 = NAMES[self.rng.usize(NAMES.len())].to_owned();
+                        if nm2 != nm {
+                            let t2 = self.tag();
+                            let p3 = format!("{line} for ");
+                            self.bindings.push(Binding { name: nm2.clone(), scope: cscope, line: self.lines.len(), col_chars: p3.chars().count(), tag: t2 });
+                            let id3 = self.uses.len();
+                            let p4 = format!("{p3}{nm2} in [{t2}, mark(\"u{id3}\", {}, ", self.decor());
+                            self.uses.push(UseSite { id: id3, name: nm.clone(), line: self.lines.len(), col_chars: p4.chars().count() });
+                            line = format!("{p4}{nm})][:1]");
+                            if self.rng.bool() {
+                                let id4 = self.uses.len();
+                                let p5 = format!("{line} if mark(\"u{id4}\", {}, ", self.decor());
+                                self.uses.push(UseSite { id: id4, name: nm2.clone(), line: self.lines.len(), col_chars: p5.chars().count() });
+                                line = format!("{p5}{nm2}) == None");
+                            }
+                        }
+                    }
+                    self.lines.push(format!("{line}]"));
                     if let Some(o) = other {
                         if o != nm {
                             self.use_stmt(indent, &o);
@@ -320,6 +350,7 @@ fn gen_doc(rng: &mut Rng, doc: usize, load_from: Option<(&str, &str)>) -> GenDoc
     if let Some((file, sym)) = load_from {
         g.lines.push(format!("load(\"{file}\", \"{sym}\")"));
         visible.push(sym.to_owned());
+        g.use_stmt(0, sym);
     }
     for nm in NAMES {
         if load_from.map(|(_, s)| s == *nm).unwrap_or(false) {
@@ -606,7 +637,10 @@ impl World for C19 {
             2 => "missing",
             _ => "none",
         };
-        json!({"docs": docs, "fault": fault, "script_seed": fl.next_u64() >> 8, "invalid_interval": fl.chance(1, 2), "reopen": fl.chance(1, 2)})
+        // The loaded document may exist on the simulated disk only (never opened in the editor):
+        // then the server reads it through the embedder's file access, where the faults are.
+        let d0_on_disk_only = nd > 1 && (fault != "none" || fl.chance(1, 4)) && fl.chance(3, 4);
+        json!({"docs": docs, "fault": fault, "script_seed": fl.next_u64() >> 8, "invalid_interval": fl.chance(1, 2), "reopen": fl.chance(1, 2), "d0_on_disk_only": d0_on_disk_only})
     }
 
     fn execute(&self, case: &Json) -> Outcome {
@@ -707,11 +741,18 @@ impl World for C19 {
             }
         };
 
-        // Open all documents.
+        // Open all documents (except a loaded document that lives on the simulated disk only).
+        let disk_only = case["d0_on_disk_only"].as_bool().unwrap_or(false) && docs.len() > 1;
+        if disk_only {
+            o.bump("probe.sessions_with_loaded_file_on_disk_only", 1);
+        }
         let mut version = 1;
-        for (name, text) in &docs {
+        for (di, (name, text)) in docs.iter().enumerate() {
             if o.violation.is_some() {
                 break;
+            }
+            if disk_only && di == 0 {
+                continue;
             }
             let uri = uri_of(name);
             let _ = cl.notify("textDocument/didOpen", json!({"textDocument": {"uri": uri, "languageId": "starlark", "version": version, "text": text}}));
@@ -727,6 +768,9 @@ impl World for C19 {
         for (di, dj) in docs_j.iter().enumerate() {
             if o.violation.is_some() {
                 break;
+            }
+            if disk_only && di == 0 {
+                continue;
             }
             let (name, text) = &docs[di];
             let uri = uri_of(name);
@@ -867,8 +911,12 @@ impl World for C19 {
                             p[k] = v.clone();
                         }
                     }
-                    if rng.chance(1, 3) {
+                    let loaded_use = di > 0 && uline <= 2 && text.contains("load(");
+                    if rng.chance(1, 3) || loaded_use {
                         o.sim_time += 1;
+                        if loaded_use {
+                            o.bump("probe.hover_or_completion_on_loaded_symbol", 1);
+                        }
                         match cl.request(method, p) {
                             Err(e) => {
                                 bail!("lsp-protocol", "protocol", "{method}: {e}");
@@ -877,6 +925,28 @@ impl World for C19 {
                             Ok(resp) => {
                                 if let Some(res) = resp.result {
                                     check_ranges(&mut o, method, &res, &uri, &model, &docs);
+                                }
+                            }
+                        }
+                    }
+                }
+            }
+            // The load statement itself: inside the module path and inside the symbol name.
+            if let Some((ll, lt)) = lines.iter().enumerate().find(|(_, l)| l.starts_with("load(")) {
+                let path_col = lt.find("d0").map(|i| lt[..i].chars().count() as u32 + 1).unwrap_or(7);
+                let sym_col = lt.rfind('"').map(|i| lt[..i].chars().count() as u32 - 1).unwrap_or(18);
+                for ch in [path_col, sym_col] {
+                    for method in ["textDocument/definition", "textDocument/hover", "textDocument/completion"] {
+                        if o.violation.is_some() {
+                            break;
+                        }
+                        o.sim_time += 1;
+                        o.bump("probe.requests_inside_load_statement", 1);
+                        match cl.request(method, json!({"textDocument": {"uri": uri}, "position": {"line": ll, "character": ch}})) {
+                            Err(e) => bail!("lsp-protocol", "protocol", "{method} inside the load statement at {ll}:{ch}: {e}"),
+                            Ok(resp) => {
+                                if let Some(res) = resp.result {
+                                    check_ranges(&mut o, &format!("{method} inside the load statement"), &res, &uri, &model, &docs);
                                 }
                             }
                         }
@@ -913,7 +983,7 @@ impl World for C19 {
 
         // History: change valid -> invalid -> valid, close, requests on closed / unknown documents, re-open.
         if o.violation.is_none() && !docs.is_empty() {
-            let (name, text) = &docs[0];
+            let (name, text) = &docs[if disk_only { 1 } else { 0 }];
             let uri = uri_of(name);
             if case["invalid_interval"].as_bool().unwrap_or(false) {
                 let broken = format!("{text}def broken(:\n    pass\n");
